@@ -114,8 +114,8 @@ PROPS.update({
     "C19": dict(level="exploration",
                 technique="contract-based deductive verification (AST->VC, z3) of filter_hypergraph on all four container types over their verified remove_node/remove_edge + bounded run-time contract checking incl. get_svh",
                 text=("filter_hypergraph (keep_edges=False) on a Hypergraph, DirectedHypergraph, TemporalHypergraph and MultiplexHypergraph is proved to leave exactly the nodes and hyperedges "
-                      "the statement names and to change nothing else about the survivors, with the criteria matcher as an uninterpreted predicate. The matcher itself, keep_edges=True "
-                      "(iterated shrinking) and get_svh (pandas/scipy) are covered by the bounded tier."), design_ref="DESIGN.md §7 C19",
+                      "the statement names and to change nothing else about the survivors, with the criteria matcher as an uninterpreted predicate. With keep_edges=True (plain, temporal, multiplex) the node clause, the kept node metadata and 'no survivor fails the hyperedge criteria' are proved as well. The matcher itself, "
+                      "the shape of the shrunk hyperedges and get_svh (pandas/scipy) are covered by the bounded tier."), design_ref="DESIGN.md §7 C19",
                 assumptions=["matches_criteria is a pure total function of (metadata, criteria); its definition is checked in the bounded tier"]),
     "C20": _b("bounded run-time contract checking of the centralities against networkx on independently built projections, expm, and eigen-equation residuals",
               "Floating point and networkx delegation: bounded exploration only. CEC/HEC are judged only where an independent long-run iteration converges.", "DESIGN.md §7 C20"),
